@@ -2,11 +2,13 @@ import SqlizeModel.Driver.Core
 import SqlizeModel.Driver.Snake
 import SqlizeModel.Driver.Pair
 import SqlizeModel.Driver.Script
+import SqlizeModel.Driver.Hash
+import SqlizeModel.Driver.Calls
 
 open Sqlize Sqlize.Driver
 
 def handlers : List (String × Handler) :=
-  [("snake", snakeHandler), ("pair", pairHandler), ("script", scriptHandler)]
+  [("snake", snakeHandler), ("pair", pairHandler), ("script", scriptHandler), ("hash", hashHandler), ("calls", callsHandler)]
 
 def handleLine (line : String) : String :=
   match SExp.parse line with
